@@ -170,3 +170,60 @@ Proof.
   - vm_compute. left; reflexivity.
 Qed.
 Print Assumptions C11_hint_ignores_shardkey_refuted.
+
+(* ------------------------------------------------------------------ the measurement's key must NOT win over the database's *)
+(* Database created WITH SHARDKEY region, measurement cpu created WITH SHARDKEY host inside it, 8 shards. The write path
+   places the row {host=h2, region=r1} by the database's key: hash("region=r1") -> shard 4. A read path that preferred the
+   measurement's own key ("the more specific definition wins") would hash "host=h2" for the query host='h2' and consult
+   shard 3 only; with today's precedence the condition does not bind region and all 8 shards are read. *)
+Definition ex_m_db : mcfg :=
+  {| m_cfg := {| c_mst := s_cpu; c_tagkeys := [s_host; s_region]; c_sk := []; c_typ := Hash; c_dur := 3600000000000;
+                 c_groups := [ex_group]; c_mstidx := None |};
+     m_vers := [(0%N, [s_host])]; m_db := [s_region] |}.
+Definition ex_row_db : brow :=
+  {| r_m := ex_m_db; r_kind := RRoute;
+     r_p := {| p_tags := [(s_host, [104; 50]%N); (s_region, [114; 49]%N)]; p_time := 1699999380000000000; p_leaf := fun _ => false |} |}.
+Definition ex_cond_h2 : expr := EEq 0%N s_host [104; 50]%N.
+
+Theorem C11_measurement_key_first_refuted :
+  exists g s, snd (batch_step xxh64 false b_empty ex_row_db) = Some (g, s) /\
+    eval_cond (m_cfg ex_m_db) (Some ex_cond_h2) (r_p ex_row_db) = true /\
+    In g (query_groups (m_cfg ex_m_db) 0 max_nano) /\
+    wkey_in_force ex_m_db (g_id g) <> rkey_mst_first ex_m_db (g_id g) /\
+    ~ In (g_id g, s_id s) (target_m_by xxh64 rkey_mst_first repaired ex_m_db 0 max_nano (Some ex_cond_h2)) /\
+    In (g_id g, s_id s) (target_m_by xxh64 rkey_in_force repaired ex_m_db 0 max_nano (Some ex_cond_h2)).
+Proof.
+  exists ex_group, {| s_id := 4%N; s_min := []; s_max := [] |}.
+  split; [vm_compute; reflexivity|]. split; [vm_compute; reflexivity|].
+  split; [vm_compute; left; reflexivity|].
+  split; [vm_compute; discriminate|].
+  split.
+  - vm_compute. intros [H|[]]; discriminate.
+  - vm_compute. do 3 right. left. reflexivity.
+Qed.
+Print Assumptions C11_measurement_key_first_refuted.
+
+(* ------------------------------------------------------------------ hint queries on a range-sharded measurement *)
+(* cpu range-sharded by host, re-sharded at the keys of host=h2 and host=h5 (three key ranges, Props.ex_rgroup). The row
+   host=h2 is stored by key range in shard 3. SELECT /*+ full_series */ .. WHERE host='h2': today's
+   getShardsAndSeriesKeyForHintQuery hashes "host=h2" over the three shards and consults another one; looked up by range,
+   shard 3 is consulted. *)
+Definition ex_point_h2 : point :=
+  {| p_tags := [(s_host, [104; 50]%N)]; p_time := 1700001180000000000; p_leaf := fun _ => false |}.
+Theorem C11_hint_range_hashes_refuted :
+  exists s, route_in xxh64 ex_rcfg ex_rgroup ex_point_h2 = Some s /\
+    wf_group ex_rcfg ex_rgroup /\ wf_point ex_point_h2 /\
+    eval_cond ex_rcfg (Some (EEq 0%N s_host [104; 50]%N)) ex_point_h2 = true /\
+    (forall specific, specific = false ->
+       ~ In (s_id s) (map s_id (target_hint_kind xxh64 specific false repaired ex_rcfg ex_rgroup (Some (EEq 0%N s_host [104; 50]%N))))) /\
+    In (s_id s) (map s_id (target_hint_kind xxh64 false true repaired ex_rcfg ex_rgroup (Some (EEq 0%N s_host [104; 50]%N)))).
+Proof.
+  exists {| s_id := 3%N; s_min := s_k 50; s_max := s_k 53 |}.
+  split; [vm_compute; reflexivity|].
+  split. { unfold wf_group. simpl. intros i Hi. simpl. destruct i as [|[|[|i]]]; simpl; auto. exfalso. inversion Hi as [|? H1]. inversion H1 as [|? H2]. inversion H2 as [|? H3]. inversion H3. }
+  split. { unfold wf_point. simpl. constructor; [intros []|constructor]. }
+  split; [vm_compute; reflexivity|]. split.
+  - intros specific ->. vm_compute. intros [H|[]]; discriminate.
+  - vm_compute. left; reflexivity.
+Qed.
+Print Assumptions C11_hint_range_hashes_refuted.
